@@ -19,6 +19,9 @@ C02_PastEndIsError == IsR => PastEndIsError(P)
 C02_OfferedRenders == IsR => OfferedRenders(P)
 C02_NavOffered == IsR => NavOffered(P, Ev.cfg.nextLen > 0, Ev.cfg.prevLen > 0)
 C02_Partition == IsR => Partition(P, Ev.rows)
+\* content that fits on ONE page together with the static part and the ordinary menu needs no browse entry: page 0 shows it
+\* (whether it is split all the same is the renderer's business; that it is shown is not)
+C02_FitsThenShown == IsR /\ Ev.onepage <= Ev.cfg.size => P[0].kind = "ok"
 C02_StaticEverywhere == IsR => \A i \in 0..(N - 1) : P[i].kind = "ok" => P[i].staticok
 
 \* the real renderer groups rows exactly as the transcription of the algorithm does
